@@ -46,8 +46,8 @@ type Num struct {
 // Sub is one subscript of a union.
 type Sub struct {
 	Kind           SubKind
-	N              Num // SIndex
-	Start, End, St Num // SSlice
+	N              Num  // SIndex
+	Start, End, St Num  // SSlice
 	TwoPart        bool // SSlice written as s:e (no second colon)
 }
 
@@ -112,19 +112,19 @@ type Query struct {
 
 // Convenience constructors -------------------------------------------------
 
-func Name(k string) Step       { return Step{Kind: KName, Name: k} }
-func BName(k string) Step      { return Step{Kind: KName, Name: k, Bracket: true} }
-func Wild() Step               { return Step{Kind: KWild} }
-func BWild() Step              { return Step{Kind: KWild, Bracket: true} }
-func Rec(inner Step) Step      { return Step{Kind: KRec, Inner: &inner} }
-func Union(subs ...Sub) Step   { return Step{Kind: KUnion, Subs: subs} }
-func Filter(q *Query) Step     { return Step{Kind: KFilter, Q: q} }
-func Idx(n int64) Sub          { return Sub{Kind: SIndex, N: Num{V: n}} }
-func Star() Sub                { return Sub{Kind: SStar} }
-func N(v int64) Num            { return Num{V: v} }
-func Om() Num                  { return Num{Omitted: true} }
-func Slice(s, e, t Num) Sub    { return Sub{Kind: SSlice, Start: s, End: e, St: t} }
-func Slice2(s, e Num) Sub      { return Sub{Kind: SSlice, Start: s, End: e, St: Om(), TwoPart: true} }
+func Name(k string) Step     { return Step{Kind: KName, Name: k} }
+func BName(k string) Step    { return Step{Kind: KName, Name: k, Bracket: true} }
+func Wild() Step             { return Step{Kind: KWild} }
+func BWild() Step            { return Step{Kind: KWild, Bracket: true} }
+func Rec(inner Step) Step    { return Step{Kind: KRec, Inner: &inner} }
+func Union(subs ...Sub) Step { return Step{Kind: KUnion, Subs: subs} }
+func Filter(q *Query) Step   { return Step{Kind: KFilter, Q: q} }
+func Idx(n int64) Sub        { return Sub{Kind: SIndex, N: Num{V: n}} }
+func Star() Sub              { return Sub{Kind: SStar} }
+func N(v int64) Num          { return Num{V: v} }
+func Om() Num                { return Num{Omitted: true} }
+func Slice(s, e, t Num) Sub  { return Sub{Kind: SSlice, Start: s, End: e, St: t} }
+func Slice2(s, e Num) Sub    { return Sub{Kind: SSlice, Start: s, End: e, St: Om(), TwoPart: true} }
 func Multi(items ...string) Step {
 	st := Step{Kind: KMulti}
 	for _, it := range items {
@@ -144,13 +144,13 @@ func (p *Path) F(funcs ...string) *Path {
 	return &q
 }
 
-func LitNum(v float64) *Operand  { return &Operand{Lit: &Literal{Kind: LNum, Num: v}} }
-func LitStr(s string) *Operand   { return &Operand{Lit: &Literal{Kind: LStr, Str: s}} }
-func LitBool(b bool) *Operand    { return &Operand{Lit: &Literal{Kind: LBool, Bool: b}} }
-func LitNull() *Operand          { return &Operand{Lit: &Literal{Kind: LNull}} }
-func OpP(p *Path) *Operand       { return &Operand{P: p} }
-func Exists(p *Path) *Query      { return &Query{Kind: QExists, P: p} }
-func NotExists(p *Path) *Query   { return &Query{Kind: QExists, P: p, Not: true} }
+func LitNum(v float64) *Operand { return &Operand{Lit: &Literal{Kind: LNum, Num: v}} }
+func LitStr(s string) *Operand  { return &Operand{Lit: &Literal{Kind: LStr, Str: s}} }
+func LitBool(b bool) *Operand   { return &Operand{Lit: &Literal{Kind: LBool, Bool: b}} }
+func LitNull() *Operand         { return &Operand{Lit: &Literal{Kind: LNull}} }
+func OpP(p *Path) *Operand      { return &Operand{P: p} }
+func Exists(p *Path) *Query     { return &Query{Kind: QExists, P: p} }
+func NotExists(p *Path) *Query  { return &Query{Kind: QExists, P: p, Not: true} }
 func Cmp(op string, l, r *Operand) *Query {
 	return &Query{Kind: QCmp, Op: op, L: l, R: r}
 }
